@@ -89,19 +89,29 @@ Definition guid_string (g : bytes) : bytes :=
   b 3%nat ++ b 2%nat ++ b 1%nat ++ b 0%nat ++ [45] ++ b 5%nat ++ b 4%nat ++ [45] ++ b 7%nat ++ b 6%nat ++ [45] ++
   b 8%nat ++ b 9%nat ++ [45] ++ b 10%nat ++ b 11%nat ++ b 12%nat ++ b 13%nat ++ b 14%nat ++ b 15%nat.
 
+Definition t_bios : bytes := Eval vm_compute in (str "bios").
+Definition t_0x : bytes := Eval vm_compute in (str "0x").
+Definition t_biospad0x : bytes := Eval vm_compute in (str "biospad_0x").
+Definition t_fv : bytes := Eval vm_compute in (str "fv.bin").
+Definition t_fvh : bytes := Eval vm_compute in (str "fvh.bin").
+Definition t_ffs : bytes := Eval vm_compute in (str ".ffs").
+Definition t_sec : bytes := Eval vm_compute in (str ".sec").
+Definition t_pad : bytes := Eval vm_compute in (str "pad.bin").
+Definition t_region : bytes := Eval vm_compute in (str "biosregion.bin").
+
 Definition render_pc (c : pc) : bytes :=
   match c with
-  | C_bios => str "bios"
-  | C_hex v => str "0x" ++ render_num 16 v
-  | C_padhex v => str "biospad_0x" ++ render_num 16 v
+  | C_bios => t_bios
+  | C_hex v => t_0x ++ render_num 16 v
+  | C_padhex v => t_biospad0x ++ render_num 16 v
   | C_guid g => guid_string g
   | C_dec v => render_num 10 v
-  | N_fv => str "fv.bin"
-  | N_fvh => str "fvh.bin"
-  | N_ffs g => guid_string g ++ str ".ffs"
-  | N_sec v => render_num 10 v ++ str ".sec"
-  | N_pad => str "pad.bin"
-  | N_region => str "biosregion.bin"
+  | N_fv => t_fv
+  | N_fvh => t_fvh
+  | N_ffs g => guid_string g ++ t_ffs
+  | N_sec v => render_num 10 v ++ t_sec
+  | N_pad => t_pad
+  | N_region => t_region
   end.
 
 Fixpoint render_path (p : path) : bytes :=
@@ -206,26 +216,25 @@ Definition fl := jf_survives.
 Definition zero_guid : bytes := zrepeat 0 16.
 
 (* TypedFirmware envelope of interface-typed children *)
-Definition sv_typed : bool := fl jf_TypedFirmware "Type" && fl jf_TypedFirmware "Value".
+Definition sv_typed : bool := Eval vm_compute in (fl jf_TypedFirmware "Type" && fl jf_TypedFirmware "Value").
 
 (* Section *)
-Definition sv_sec_hdr : bool := fl jf_Section "Header".
-Definition sv_sec_size3 : bool := sv_sec_hdr && fl jf_SectionExtHeader "Size".
-Definition sv_sec_type : bool := sv_sec_hdr && fl jf_SectionExtHeader "Type".
-Definition sv_sec_ext : bool := sv_sec_hdr && fl jf_SectionExtHeader "ExtendedSize".
-Definition sv_sec_ts : bool :=
-  fl jf_Section "TypeSpecific" && fl jf_TypeSpecificHeader "Type" && fl jf_TypeSpecificHeader "Header".
-Definition sv_gd_guid : bool := fl jf_SectionGUIDDefined "GUID".
-Definition sv_gd_dataoff : bool := fl jf_SectionGUIDDefined "DataOffset".
-Definition sv_gd_attrs : bool := fl jf_SectionGUIDDefined "Attributes".
-Definition sv_gd_kind : bool := fl jf_SectionGUIDDefined "Compression".
-Definition sv_sec_name : bool := fl jf_Section "Name".
-Definition sv_sec_build : bool := fl jf_Section "BuildNumber".
-Definition sv_sec_version : bool := fl jf_Section "Version".
-Definition sv_sec_depex : bool := fl jf_Section "DepEx" && fl jf_DepExOp "OpCode" && fl jf_DepExOp "GUID".
-Definition sv_sec_order : bool := fl jf_Section "FileOrder".
-Definition sv_sec_kids : bool := fl jf_Section "Encapsulated" && sv_typed.
-Definition sv_sec_path : bool := fl jf_Section "ExtractPath".
+Definition sv_sec_hdr : bool := Eval vm_compute in (fl jf_Section "Header").
+Definition sv_sec_size3 : bool := Eval vm_compute in (sv_sec_hdr && fl jf_SectionExtHeader "Size").
+Definition sv_sec_type : bool := Eval vm_compute in (sv_sec_hdr && fl jf_SectionExtHeader "Type").
+Definition sv_sec_ext : bool := Eval vm_compute in (sv_sec_hdr && fl jf_SectionExtHeader "ExtendedSize").
+Definition sv_sec_ts : bool := Eval vm_compute in (fl jf_Section "TypeSpecific" && fl jf_TypeSpecificHeader "Type" && fl jf_TypeSpecificHeader "Header").
+Definition sv_gd_guid : bool := Eval vm_compute in (fl jf_SectionGUIDDefined "GUID").
+Definition sv_gd_dataoff : bool := Eval vm_compute in (fl jf_SectionGUIDDefined "DataOffset").
+Definition sv_gd_attrs : bool := Eval vm_compute in (fl jf_SectionGUIDDefined "Attributes").
+Definition sv_gd_kind : bool := Eval vm_compute in (fl jf_SectionGUIDDefined "Compression").
+Definition sv_sec_name : bool := Eval vm_compute in (fl jf_Section "Name").
+Definition sv_sec_build : bool := Eval vm_compute in (fl jf_Section "BuildNumber").
+Definition sv_sec_version : bool := Eval vm_compute in (fl jf_Section "Version").
+Definition sv_sec_depex : bool := Eval vm_compute in (fl jf_Section "DepEx" && fl jf_DepExOp "OpCode" && fl jf_DepExOp "GUID").
+Definition sv_sec_order : bool := Eval vm_compute in (fl jf_Section "FileOrder").
+Definition sv_sec_kids : bool := Eval vm_compute in (fl jf_Section "Encapsulated" && sv_typed).
+Definition sv_sec_path : bool := Eval vm_compute in (fl jf_Section "ExtractPath").
 
 Definition proj_gd (g : gdhdr) : gdhdr :=
   mkGd (if sv_gd_guid then gd_guid g else zero_guid)
@@ -246,19 +255,19 @@ Definition proj_sec (h : sechdr) : sechdr :=
         (if sv_sec_order then s_order h else 0).
 
 (* File *)
-Definition sv_file_hdr : bool := fl jf_File "Header".
-Definition sv_file_guid : bool := sv_file_hdr && fl jf_FileHeaderExtended "GUID".
-Definition sv_file_ckh : bool := sv_file_hdr && fl jf_FileHeaderExtended "Checksum" && fl jf_IntegrityCheck "Header".
-Definition sv_file_ckf : bool := sv_file_hdr && fl jf_FileHeaderExtended "Checksum" && fl jf_IntegrityCheck "File".
-Definition sv_file_type : bool := sv_file_hdr && fl jf_FileHeaderExtended "Type".
-Definition sv_file_attr : bool := sv_file_hdr && fl jf_FileHeaderExtended "Attributes".
-Definition sv_file_size3 : bool := sv_file_hdr && fl jf_FileHeaderExtended "Size".
-Definition sv_file_state : bool := sv_file_hdr && fl jf_FileHeaderExtended "State".
-Definition sv_file_ext : bool := sv_file_hdr && fl jf_FileHeaderExtended "ExtendedSize".
-Definition sv_file_dataoff : bool := fl jf_File "DataOffset".
-Definition sv_file_nvar : bool := fl jf_File "NVarStore".
-Definition sv_file_kids : bool := fl jf_File "Sections".
-Definition sv_file_path : bool := fl jf_File "ExtractPath".
+Definition sv_file_hdr : bool := Eval vm_compute in (fl jf_File "Header").
+Definition sv_file_guid : bool := Eval vm_compute in (sv_file_hdr && fl jf_FileHeaderExtended "GUID").
+Definition sv_file_ckh : bool := Eval vm_compute in (sv_file_hdr && fl jf_FileHeaderExtended "Checksum" && fl jf_IntegrityCheck "Header").
+Definition sv_file_ckf : bool := Eval vm_compute in (sv_file_hdr && fl jf_FileHeaderExtended "Checksum" && fl jf_IntegrityCheck "File").
+Definition sv_file_type : bool := Eval vm_compute in (sv_file_hdr && fl jf_FileHeaderExtended "Type").
+Definition sv_file_attr : bool := Eval vm_compute in (sv_file_hdr && fl jf_FileHeaderExtended "Attributes").
+Definition sv_file_size3 : bool := Eval vm_compute in (sv_file_hdr && fl jf_FileHeaderExtended "Size").
+Definition sv_file_state : bool := Eval vm_compute in (sv_file_hdr && fl jf_FileHeaderExtended "State").
+Definition sv_file_ext : bool := Eval vm_compute in (sv_file_hdr && fl jf_FileHeaderExtended "ExtendedSize").
+Definition sv_file_dataoff : bool := Eval vm_compute in (fl jf_File "DataOffset").
+Definition sv_file_nvar : bool := Eval vm_compute in (fl jf_File "NVarStore").
+Definition sv_file_kids : bool := Eval vm_compute in (fl jf_File "Sections").
+Definition sv_file_path : bool := Eval vm_compute in (fl jf_File "ExtractPath").
 
 Section Project.
 
@@ -279,35 +288,51 @@ Definition proj_file (h : filehdr) : filehdr :=
 
 (* FirmwareVolume *)
 Definition fv := fl jf_FirmwareVolume.
-Definition sv_vol_blocks : bool := fv "Blocks" && fl jf_Block "Count" && fl jf_Block "Size".
-Definition sv_vol_kids : bool := fv "Files".
-Definition sv_vol_path : bool := fv "ExtractPath".
+Definition sv_vol_blocks : bool := Eval vm_compute in (fv "Blocks" && fl jf_Block "Count" && fl jf_Block "Size").
+Definition sv_vol_kids : bool := Eval vm_compute in (fv "Files").
+Definition sv_vol_path : bool := Eval vm_compute in (fv "ExtractPath").
+Definition sv_vol_zero : bool := Eval vm_compute in (fv "_").
+Definition sv_vol_guid : bool := Eval vm_compute in (fv "FileSystemGUID").
+Definition sv_vol_length : bool := Eval vm_compute in (fv "Length").
+Definition sv_vol_sig : bool := Eval vm_compute in (fv "Signature").
+Definition sv_vol_attrs : bool := Eval vm_compute in (fv "Attributes").
+Definition sv_vol_hdrlen : bool := Eval vm_compute in (fv "HeaderLen").
+Definition sv_vol_cksum : bool := Eval vm_compute in (fv "Checksum").
+Definition sv_vol_exthdroff : bool := Eval vm_compute in (fv "ExtHeaderOffset").
+Definition sv_vol_reserved : bool := Eval vm_compute in (fv "Reserved").
+Definition sv_vol_rev : bool := Eval vm_compute in (fv "Revision").
+Definition sv_vol_extname : bool := Eval vm_compute in (fv "FVName").
+Definition sv_vol_extsize : bool := Eval vm_compute in (fv "ExtHeaderSize").
+Definition sv_vol_dataoff : bool := Eval vm_compute in (fv "DataOffset").
+Definition sv_vol_fvoffset : bool := Eval vm_compute in (fv "FVOffset").
+Definition sv_vol_resizable : bool := Eval vm_compute in (fv "Resizable").
+Definition sv_vol_freespace : bool := Eval vm_compute in (fv "FreeSpace").
 
 Definition proj_vol (h : volhdr) : volhdr :=
-  mkVol (if fv "_" then v_zero h else zero_guid)
-        (if fv "FileSystemGUID" then v_guid h else zero_guid)
-        (if fv "Length" then v_length h else 0)
-        (if fv "Signature" then v_sig h else 0)
-        (if fv "Attributes" then v_attrs h else 0)
-        (if fv "HeaderLen" then v_hdrlen h else 0)
-        (if fv "Checksum" then v_cksum h else 0)
-        (if fv "ExtHeaderOffset" then v_exthdroff h else 0)
-        (if fv "Reserved" then v_reserved h else 0)
-        (if fv "Revision" then v_rev h else 0)
+  mkVol (if sv_vol_zero then v_zero h else zero_guid)
+        (if sv_vol_guid then v_guid h else zero_guid)
+        (if sv_vol_length then v_length h else 0)
+        (if sv_vol_sig then v_sig h else 0)
+        (if sv_vol_attrs then v_attrs h else 0)
+        (if sv_vol_hdrlen then v_hdrlen h else 0)
+        (if sv_vol_cksum then v_cksum h else 0)
+        (if sv_vol_exthdroff then v_exthdroff h else 0)
+        (if sv_vol_reserved then v_reserved h else 0)
+        (if sv_vol_rev then v_rev h else 0)
         (if sv_vol_blocks then v_blocks h else [])
-        (if fv "FVName" then v_extname h else zero_guid)
-        (if fv "ExtHeaderSize" then v_extsize h else 0)
-        (if fv "DataOffset" then v_dataoff h else 0)
-        (if fv "FVOffset" then v_fvoffset h else 0)
-        (if fv "Resizable" then v_resizable h else false)
-        (if fv "FreeSpace" then v_freespace h else 0).
+        (if sv_vol_extname then v_extname h else zero_guid)
+        (if sv_vol_extsize then v_extsize h else 0)
+        (if sv_vol_dataoff then v_dataoff h else 0)
+        (if sv_vol_fvoffset then v_fvoffset h else 0)
+        (if sv_vol_resizable then v_resizable h else false)
+        (if sv_vol_freespace then v_freespace h else 0).
 
 (* BIOSPadding, BIOSRegion *)
-Definition sv_pad_off : bool := fl jf_BIOSPadding "Offset".
-Definition sv_pad_path : bool := fl jf_BIOSPadding "ExtractPath".
-Definition sv_reg_elems : bool := fl jf_BIOSRegion "Elements" && sv_typed.
-Definition sv_reg_length : bool := fl jf_BIOSRegion "Length".
-Definition sv_reg_path : bool := fl jf_BIOSRegion "ExtractPath".
+Definition sv_pad_off : bool := Eval vm_compute in (fl jf_BIOSPadding "Offset").
+Definition sv_pad_path : bool := Eval vm_compute in (fl jf_BIOSPadding "ExtractPath").
+Definition sv_reg_elems : bool := Eval vm_compute in (fl jf_BIOSRegion "Elements" && sv_typed).
+Definition sv_reg_length : bool := Eval vm_compute in (fl jf_BIOSRegion "Length").
+Definition sv_reg_path : bool := Eval vm_compute in (fl jf_BIOSRegion "ExtractPath").
 
 (* ---------- ParseDir ---------- *)
 
